@@ -74,6 +74,7 @@ type op struct {
 	Block bool   `json:"block,omitempty"` // send: the handler blocks until "release"
 	Wait  bool   `json:"wait,omitempty"`  // send: wait until the handler was entered / has returned
 	Par   bool   `json:"par,omitempty"`   // run concurrently with the following op(s)
+	P     string `json:"p,omitempty"`     // gate: name of the schedule point (proposed_fixes/C15-hooks.diff)
 }
 
 type scenario struct {
@@ -473,6 +474,10 @@ func (c *child) runScenario(sc *scenario) endInfo {
 		close(s.chans[ch])
 	}
 
+	sched := lib.NewSched()
+	onet.SetVerifHook(sched.Hook)
+	defer sched.ReleaseAll()
+	var gate *lib.Gate
 	doOp := func(o op) {
 		i := o.S
 		switch o.K {
@@ -529,6 +534,18 @@ func (c *child) runScenario(sc *scenario) endInfo {
 			deadline := time.Now().Add(2 * time.Second)
 			for time.Now().Before(deadline) && !readerBlocked() {
 				time.Sleep(2 * time.Millisecond)
+			}
+		case "gate":
+			// hold the next goroutine that reaches the schedule point
+			gate = sched.Block(o.P, 1, nil)
+		case "waithit":
+			// the point is only there once C15-hooks.diff is applied: otherwise the scenario is not reached
+			if gate == nil || !gate.WaitHit(300*time.Millisecond) {
+				info.Discard = true
+			}
+		case "ungate":
+			if gate != nil {
+				gate.Release()
 			}
 		case "waithandled":
 			// until V handler calls of the session have returned (bounded)
